@@ -237,7 +237,7 @@ def trusted_base_list(text):
 
 ASSUMPTION_IDS = [
     'A-VERUS: Verus 0.2026.09.13 + Z3 are sound',
-    'A-EXTRACT: the mechanical rewrites R1-R18 / drops D-a..D-f of DESIGN.md section 4 preserve semantics (counts in coverage.extraction)',
+    'A-EXTRACT: the mechanical rewrites R1-R20 / drops D-a..D-f of DESIGN.md section 4 preserve semantics (counts in coverage.extraction)',
     'A-ROLLBACK: a request that returns Err or aborts leaves no state or balance change (chain semantics); all safety clauses are phrased on Ok',
     'A-CHAIN: the chain executes each message of an Ok response exactly once and credits attached funds before execute',
     'A-STORE: cw-storage-plus save/load/remove/update/is_empty as specified in shim (namespaces disjoint, keys are raw id bytes)',
